@@ -25,10 +25,11 @@ func unhex(s string) []byte {
 	if err != nil {
 		panic("bad hex " + s)
 	}
-	if b == nil {
-		b = []byte{}
-	}
-	return b
+	// hand the library slices whose capacity exceeds their length (sub-slices of larger
+	// buffers are what real callers pass): len/cap confusions and append-aliasing then show
+	out := make([]byte, len(b), (len(b)/64+1)*64)
+	copy(out, b)
+	return out
 }
 
 func hexList(l [][]byte) string {
@@ -108,6 +109,8 @@ func execLine(line string) (out string) {
 		return opResign(f[1:])
 	case "vtwice":
 		return opVTwice(f[1:])
+	case "smempty":
+		return opSMEmpty(f[1:])
 	}
 	return "harness-error unknown op " + f[0]
 }
@@ -894,4 +897,26 @@ func opVTwice(a []string) string {
 	}
 	r2 := verify()
 	return "dec=ok ver=" + errClass(r1) + " vtbs=" + t1 + " ver2=" + errClass(r2) + " vtbs2=" + hexList(vlog.tbs)
+}
+
+// smempty HEX IDX nil|empty : decode a COSE_Sign, empty one signature, encode again
+func opSMEmpty(a []string) string {
+	var m cose.SignMessage
+	if m.UnmarshalCBOR(unhex(a[0])) != nil {
+		return "dec=err"
+	}
+	var idx int
+	fmt.Sscanf(a[1], "%d", &idx)
+	if idx < len(m.Signatures) {
+		if a[2] == "nil" {
+			m.Signatures[idx].Signature = nil
+		} else {
+			m.Signatures[idx].Signature = []byte{}
+		}
+	}
+	enc, err := m.MarshalCBOR()
+	if err != nil {
+		return "dec=ok enc=err"
+	}
+	return "dec=ok enc=" + hx(enc)
 }
